@@ -3,8 +3,8 @@ What property C19 says, on the abstract file system of `Model/Download.lean`.
 -/
 import ReuseVerif.Model.Download
 
-namespace Spec
-open Py Model
+namespace Spec.Download
+open Py Model Model.Download
 
 /-- The identifiers a command asks for (`--all`: lint's missing licences). -/
 def requested (missing : List Text) (a : Args) : List Text := if a.all then missing else a.ids
@@ -17,7 +17,7 @@ inductive Allowed (e : Env) (missing : List Text) (a : Args) : Path → Node →
   | outputDir (o : Path) : a.output = some o → Allowed e missing a o.dropLast .dir
   | licence (id t : Text) : a.output = none → id ∈ requested missing a →
       Allowed e missing a (licensesDir e ++ [stripPlus id ++ txtSuffix]) (.file t)
-  | licensesDir : a.output = none → Allowed e missing a (Model.licensesDir e) .dir
+  | licensesDir : a.output = none → Allowed e missing a (Model.Download.licensesDir e) .dir
 
 /-- "never replaces or alters an existing file" (stated for every kind of node). -/
 def Preserves (fs fs' : Fs) : Prop := ∀ p n, fs.get p = some n → fs'.get p = some n
@@ -25,4 +25,4 @@ def Preserves (fs fs' : Fs) : Prop := ∀ p n, fs.get p = some n → fs'.get p =
 /-- Decidable hypothesis of `C19_plus`. -/
 def noPlus (id : Text) : Bool := !endsWith id ['+']
 
-end Spec
+end Spec.Download
